@@ -328,7 +328,10 @@ def check_versions(P, R, tu):
             else:
                 R.ob(rule, "data switch at line %s decodes every accepted version %s" % (sw.get("l"), sorted(accept)), True)
     if not found:
-        raise AnalysisBroken("%s: the two version switches of zif_open were not recognised" % rule)
+        # the dispatch on the version is not a pair of switches (an if chain, say): whether every accepted version has its tables
+        # decoded is then decided on the loads themselves (RF2-zifopen folds zif_open on version 1 and 2 images and on every prefix
+        # of them); no structural comparison
+        R.notes.append("%s: the version dispatch of zif_open is not a pair of switches: not compared structurally, decided by RF2-zifopen" % rule)
 
 
 def check_types(P, R, tu, lfm):
@@ -396,6 +399,15 @@ def check_types(P, R, tu, lfm):
         valid[field] = (loop, x, bound, op, lc)
     for c, field, ln in copies:
         v = valid.get(field)
+        if v is None and not valid and any(
+                y.get("k") == "CallExpr" and tu.func(y.get("callee") or "") is not None
+                and any((strip(a) or {}).get("k") == "MemberExpr" and (strip(a) or {}).get("n") == field for a in call_args(y))
+                for y in fn.walk()):
+            # the copied table is handed to a routine of this unit (the comparison with the other table's extent given a name of its
+            # own): whether a file with a transition to a missing type is refused is decided on such files (RF2-zifopen)
+            R.notes.append("%s: .%s is checked in a helper; not compared structurally, decided by RF2-zifopen on files with a wrong type index"
+                           % (rule, field))
+            continue
         if v is None:
             R.finding(rule, fn, "validation of %s" % field, "the bytes copied from the file into .%s index another table; they are never "
                       "compared with that table's extent before the object is returned" % field, c)
@@ -837,7 +849,7 @@ def check(P, R, tier):
     nv = tzmdecode.run(R, P, "RF2-tzmvalid")
     R.floor("RF2-tzmvalid", "decoded verdicts of the map validator", nv, 100)
     import zifdecode
-    nz = zifdecode.run(R, P, "RF2-zifopen") + zifdecode.run_truncated(R, P, "RF2-zifopen")
+    nz = zifdecode.run(R, P, "RF2-zifopen") + zifdecode.run_truncated(R, P, "RF2-zifopen") + zifdecode.run_badtypes(R, P, "RF2-zifopen")
     R.floor("RF2-zifopen", "decoded loads of synthetic zone files and of their prefixes", nz, 500)
 
 
